@@ -190,3 +190,25 @@ Proof.
   intros. unfold interrupted. split; [apply read_new_agree|apply last_upd_agree];
     intros; apply histnew_untouched.
 Qed.
+
+(* ---------------------------------------------------------------- aggregated filters *)
+(* the persisted filter of window [w, w+WIN) indexes retained blocks iff the window intersects
+   [e, head], i.e. (w aligned) e < w + WIN; every such filter survives every prefix of every sweep *)
+Definition window_retained (e w : N) : Prop := w mod WIN = 0 /\ e < w + WIN.
+
+Lemma bloom_windows_retained : forall (s : store) head e k rot m w,
+  window_retained e w -> interrupted s (prune_plan s head e k rot) m Bloom w = s Bloom w.
+Proof. intros. apply plan_retained_unchanged_fam. exact H. Qed.
+
+(* in particular the window that contains the floor itself *)
+Lemma floor_window_retained : forall e, window_retained e (wf e).
+Proof.
+  intros. unfold window_retained. split.
+  - rewrite wf_eq. rewrite N.mul_comm. apply N.mod_mul. unfold WIN. lia.
+  - unfold wf. pose proof (N.mod_lt e WIN ltac:(unfold WIN; lia)). lia.
+Qed.
+
+(* and a sweep that deleted by "starts below e" instead of "ends below e" would not: the window of e
+   starts below e whenever e is not aligned *)
+Lemma floor_window_starts_below : forall e, e mod WIN <> 0 -> wf e < e.
+Proof. intros. unfold wf. pose proof (N.mod_le e WIN ltac:(unfold WIN; lia)). lia. Qed.
